@@ -470,6 +470,10 @@ func (x *exec) rangeInit(fr *frame, i *ssa.Range, s *State) {
 	ctr := x.c.Fresh("rangectr")
 	ri.ctrName = ctr
 	s.cellsByName(ctr, x.mkVal(z, types.Typ[types.Int]))
+	// ghost set of the keys visited so far
+	ri.visName = ctr + ".visited"
+	ri.setSort = fmt.Sprintf("(Array %s Bool)", ks)
+	s.ghost[ri.visName] = &Val{T: fmt.Sprintf("((as const %s) false)", ri.setSort), Typ: types.Typ[types.Bool], SetSort: ri.setSort}
 	fr.ranges[i] = ri
 	fr.vals[i] = &Val{Typ: i.Type()}
 }
@@ -480,6 +484,8 @@ type rangeVal struct {
 	ref         string
 	dom0        string
 	ctrName     string
+	visName     string
+	setSort     string
 }
 
 func (x *exec) next(fr *frame, i *ssa.Next, s *State) {
@@ -506,6 +512,14 @@ func (x *exec) next(fr *frame, i *ssa.Next, s *State) {
 	val := x.loaded(s, x.c.Let("rv", x.c.SortOf(ri.m.Elem()), Sel(v, key)), ri.m.Elem())
 	x.assume(s, x.c.ICmp("<=", x.c.ILit(0), c))
 	s.ghost[ri.ctrName] = x.mkVal(x.c.Let("rc", x.c.I(), Ite(okT, x.c.IAdd(c, x.c.ILit(1)), c)), types.Typ[types.Int])
+	// structural facts of ranging over a map that is not modified meanwhile: the next key is in the
+	// map and was not visited before; when the iteration is exhausted every key has been visited
+	if vis := s.ghost[ri.visName]; vis != nil && vis.T != "" {
+		x.assume(s, And(Imp(okT, And(Sel(ri.dom0, key), Not(Sel(vis.T, key)))), Imp(Not(okT), Eq(vis.T, ri.dom0))))
+		nv := x.c.Let("rvis", ri.setSort, Ite(okT, Sto(vis.T, key, "true"), vis.T))
+		s.ghost[ri.visName] = &Val{T: nv, Typ: types.Typ[types.Bool], SetSort: ri.setSort}
+		x.note("range over a map: key sequence is a bijective enumeration of the map's domain at loop entry (map not modified while ranged)")
+	}
 	tt := i.Type().(*types.Tuple)
 	kv := x.mkVal(key, tt.At(1).Type())
 	fr.vals[i] = &Val{Typ: i.Type(), Tup: []*Val{x.mkVal(okT, types.Typ[types.Bool]), kv, val}}
